@@ -45,27 +45,11 @@ func VH_Route_setup() {
 	}
 }
 
-// vSplitPath strips leading slashes and splits on '/', by its own scan.
-func vSplitPath(path string) []string {
-	p := 0
-	for p < len(path) && path[p] == '/' {
-		p++
-	}
-	var segs []string
-	start := p
-	for i := p; i < len(path); i++ {
-		if path[i] == '/' {
-			segs = append(segs, path[start:i])
-			start = i + 1
-		}
-	}
-	segs = append(segs, path[start:])
-	return segs
-}
-
 func VH_Route_match() {
 	n := vx.ParamInt("n")
-	path := vx.String(n)
+	// the request path is a concrete prefix (possibly empty) followed by up to n
+	// arbitrary bytes; the prefix only moves the symbolic window deeper into a tree
+	path := vx.Param("prefix") + vx.String(n)
 	segs := vSplitPath(path)
 
 	leaf, params, ok := vTree.Match(path, nil)
